@@ -99,6 +99,14 @@ func bss(sss [][]string) [][]bstr {
 	return out
 }
 
+func hexs(h string) string {
+	b, err := hex.DecodeString(h)
+	if err != nil {
+		panic(err)
+	}
+	return string(b)
+}
+
 // unb decodes what bstr wrote (after a generic json.Unmarshal)
 func unb(v any) string {
 	switch x := v.(type) {
@@ -966,7 +974,7 @@ func (d *driver) replay(path string) {
 	if in == nil {
 		in = doc.Replay.Input
 	}
-	if d.replayBlocks(in) {
+	if d.replayBlocks(in) || d.replayRace(in) {
 		return
 	}
 	strs := unbs
@@ -1052,6 +1060,7 @@ func main() {
 	// development aid (mutation testing of the block-level classes only); unset in every normal run
 	if os.Getenv("HC13_ONLY") == "blocks" {
 		d.blockStreams(thorough)
+		d.raceStreams(thorough)
 		if err := w.Close(); err != nil {
 			panic(err)
 		}
@@ -1381,6 +1390,9 @@ func main() {
 
 	// (g) packed token blocks, token providers, active token list (blocks.go)
 	d.blockStreams(thorough)
+
+	// (h) searches racing with an Append; token table reloads through one loader (race.go)
+	d.raceStreams(thorough)
 
 	if err := w.Close(); err != nil {
 		panic(err)
